@@ -47,7 +47,19 @@ def h1(ctx):
 @rule("H2", doc="enodes_applied: bound/redundant occurrences and uncovered public slots get Slot::fresh()")
 def h2(ctx):
     crate = ctx.lib()
-    b = crate.one("egraph::EGraph", "enodes_applied")
+    b0 = crate.one("egraph::EGraph", "enodes_applied")
+    b = b0
+    if not any(role_mentions_call(l[1], "all_slot_occurrences_mut") for l in C.iterator_loops(b0)):
+        # the per-node part may live in a private helper (`instantiate_enode(sh, psn, class_slots, i) -> L`) that the node loop /
+        # the `map` closure calls for every node
+        cands = []
+        for sub in b0.all_bodies():
+            for c in sub.calls:
+                t = crate.bodies.get(c.callee.target) if c.callee else None
+                if t is not None and t.kind != "Closure" and t.vis != "pub" and t.file == b0.file and any(role_mentions_call(l[1], "all_slot_occurrences_mut") for l in C.iterator_loops(t)):
+                    cands.append(t)
+        if len({t.id for t in cands}) == 1:
+            b = cands[0]
     # (i) occurrence loop over all_slot_occurrences_mut
     loops = C.iterator_loops(b)
     occ = [l for l in loops if role_mentions_call(l[1], "all_slot_occurrences_mut")]
@@ -60,6 +72,18 @@ def h2(ctx):
         r = strip_role(b.role_of_rvalue(s["rv"]))
         conds = C.conditions_at(b, bi)
         guard = any(cond[0] == "false" and role_str(cond[1]).startswith("contains(") and role_mentions_field(cond[1], "slots") for e, cond in conds)
+        if not guard and b is not b0:
+            # in the per-node helper the class's slot set is a parameter: what the caller passes for it is the class's `slots`
+            for e, cond in conds:
+                r_ = strip_role(cond[1]) if len(cond) > 1 else None
+                if cond[0] == "false" and isinstance(r_, tuple) and r_[0] == "call" and r_[1] == "contains" and r_[3]:
+                    setr = strip_role(r_[3][0])
+                    if isinstance(setr, tuple) and setr[0] == "param":
+                        pi = b.param_index(setr[1])
+                        for sub in b0.all_bodies():
+                            for c in sub.calls:
+                                if c.callee and c.callee.target == b.id and pi is not None and pi - 1 < len(c.args) and role_mentions_field(sub.role_of_operand(c.args[pi - 1]), "slots"):
+                                    guard = True
         ctx.check(guard, "rename-only-non-class-slots:%d" % bi, "a slot occurrence is renamed only if it is not a slot of the class",
                   "enodes_applied overwrites a slot occurrence without testing !class_slots.contains(slot)", where_of(b, bi, s.get("line")))
         members = [strip_role(x) for x in r[1]] if r[0] == "phi" else [r]
@@ -95,12 +119,21 @@ def h2(ctx):
                 okc = True
     ctx.check(okc, "covered-slots-follow-invocation", "covered slots are renamed by i.m", "enodes_applied no longer renames covered slots by the invocation's map", where_of(b))
     # the pushed node is the renamed one
-    push = [c for c in b.calls if c.callee and c.callee.name == "push"]
+    push = [c for c in b0.calls if c.callee and c.callee.name == "push"] if b is b0 else []
+    if b is not b0:
+        ctx.check(role_mentions_call(b.role_of_local(0), "apply_slotmap"), "result-is-renamed-node", "the node handed out is the renamed one", "the per-node helper of enodes_applied returns %s" % role_str(b.role_of_local(0))[:100], where_of(b))
     for c in push:
         r = b.role_of_operand(c.args[1])
         ctx.check(role_mentions_call(r, "apply_slotmap"), "result-is-renamed-node", "the node handed out is the renamed one", "enodes_applied pushes %s" % role_str(r)[:100], where_of(b, c.bb))
-    nodes = [l for l in loops if strip_role(l[1])[0] == "field" and strip_role(l[1])[2] == "nodes"]
-    ctx.check(len(nodes) == 1 and C.loop_exhaustive(b, nodes[0]), "all-nodes", "every e-node of the class is handed out", "enodes_applied can skip e-nodes of the class", where_of(b))
+    nodes = [l for l in C.iterator_loops(b0) if strip_role(l[1])[0] == "field" and strip_role(l[1])[2] == "nodes"]
+    ok_nodes = len(nodes) == 1 and C.loop_exhaustive(b0, nodes[0])
+    if not nodes:
+        # adaptor form: class.nodes.iter().map(|(sh, psn)| ..).collect()
+        r0 = strip_role(b0.role_of_local(0))
+        DROP = ("filter", "take", "skip", "step_by", "filter_map", "take_while", "skip_while", "find", "nth")
+        ok_nodes = isinstance(r0, tuple) and r0[0] == "call" and r0[1] == "collect" and role_mentions_field(r0, "nodes") and any(isinstance(x, tuple) and x[0] == "call" and x[1] == "map" for x in role_walk(r0)) \
+            and not any(isinstance(x, tuple) and x[0] == "call" and x[1] in DROP for x in role_walk(r0))
+    ctx.check(ok_nodes, "all-nodes", "every e-node of the class is handed out", "enodes_applied can skip e-nodes of the class", where_of(b0))
 
 
 @rule("H3", doc="final_subst: slots not covered by the pattern's slot map get Slot::fresh()")
